@@ -44,6 +44,7 @@ INTERFACE_METHODS = {"update_states", "compute_current", "init_state", "forward"
                      "__getattr__", "__exit__", "__enter__", "wrapper", "__getitem__", "vis"}
 
 _anchors = None
+_wheres = {}
 
 
 def anchors(prop):
@@ -53,17 +54,155 @@ def anchors(prop):
         for line in open(os.path.join(VERIF, "properties.jsonl"), encoding="utf-8"):
             p = json.loads(line)
             _anchors[p["id"]] = p["anchors"]["files"]
+            _wheres[p["id"]] = [m["where"] for m in p["anchors"].get("mechanism", [])]
     return _anchors.get(prop, [])
+
+
+_scope_cache = {}
+
+
+def _callgraph(repo):
+    """function key -> set of callee keys.  Receiver-aware for Module methods (sa.effects), name resolution for
+    module-level functions (also when only referenced: partial(f, ...), vmap(f)), class instantiation -> __init__,
+    dynamic dispatch of the mechanism interface."""
+    if "cg" in _scope_cache:
+        return _scope_cache["cg"]
+    from sa.effects import Effects
+    from sa.core import FuncInfo, ClassInfo
+    eff = Effects(repo)
+    g = {}
+    for fi in repo.all_functions():
+        k = (fi.file, fi.qual)
+        out = set()
+        mi = repo.mods[fi.file]
+        for n in ast.walk(fi.node):
+            if isinstance(n, ast.Name) and isinstance(n.ctx, ast.Load):
+                r = repo.resolve_name(mi, n.id)
+                if isinstance(r, FuncInfo):
+                    out.add((r.file, r.qual))
+                elif isinstance(r, ClassInfo):
+                    for b in repo.mro(r.name):
+                        if "__init__" in b.methods:
+                            out.add((b.file, b.methods["__init__"].qual))
+                            break
+        try:
+            ex = eff.expander(fi)
+            stack = [ex]
+            while stack:
+                e = stack.pop()
+                stack.extend(e.nested.values())
+                for c in e.calls:
+                    t = e.term(c)
+                    if t.op == "mcall":
+                        for cf in eff.resolve_method(t, e.fi if hasattr(e, "fi") else fi):
+                            out.add((cf.file, cf.qual))
+        except Exception:  # the expander cannot handle this function: name-based edges only
+            pass
+        # super().__init__ / super().method
+        for n in ast.walk(fi.node):
+            if isinstance(n, ast.Call) and isinstance(n.func, ast.Attribute) and isinstance(n.func.value, ast.Call) and \
+                    isinstance(n.func.value.func, ast.Name) and n.func.value.func.id == "super" and fi.cls:
+                for b in repo.mro(fi.cls)[1:]:
+                    if n.func.attr in b.methods:
+                        out.add((b.file, b.methods[n.func.attr].qual))
+                        break
+        g[k] = out
+    _scope_cache["cg"] = g
+    return g
+
+
+def _entries(repo, prop):
+    """Functions named by the property's anchors (`where` strings), resolved against the repository."""
+    import fnmatch
+    import re
+    allf = list(repo.all_functions())
+    files = anchor_files(prop)
+    ents, unresolved = set(), []
+    for where in anchor_wheres(prop):
+        for seg in where.split(";"):
+            fmention = re.findall(r"[\w/]+\.py", seg)
+            segfiles = [f for f in repo.mods if any(f.endswith("/" + m.split("/")[-1]) or f == m for m in fmention)] or files
+            cands = [f for f in allf if f.file in segfiles]
+            rest = re.sub(r"[\w/]+\.py", " ", seg)
+            rest = re.sub(r"\bl\.\s*\d+(-\d+)?(,\s*\d+(-\d+)?)*", " ", rest)
+            toks = []
+            for m in re.finditer(r"([A-Za-z_*][\w*.]*)(\((\w+)\))?", rest):
+                toks.append(m.group(1))
+                if m.group(3):
+                    toks.append(m.group(1) + m.group(3))
+            hit = False
+            for tok in toks:
+                tok = tok.strip(".")
+                for f in cands:
+                    names = {f.name, f.qual}
+                    if any(fnmatch.fnmatchcase(nm, tok) for nm in names) or \
+                            ("." in tok and fnmatch.fnmatchcase(f.qual, "*" + tok.split(".", 1)[1]) and tok.split(".")[0] in (f.cls or "", "*")):
+                        ents.add((f.file, f.qual))
+                        hit = True
+                # nested function named in the anchor (init_fn, _body_fun): its enclosing function
+                if not hit:
+                    for f in cands:
+                        if any(isinstance(x, ast.FunctionDef) and x.name == tok and x is not f.node for x in ast.walk(f.node)):
+                            ents.add((f.file, f.qual))
+                            hit = True
+            if not hit and fmention:
+                for f in cands:
+                    ents.add((f.file, f.qual))
+                unresolved.append(seg.strip())
+    return ents, unresolved
+
+
+def scope(repo, prop):
+    """The functions a property is about: the anchored functions and everything they (transitively) call."""
+    if prop in _scope_cache:
+        return _scope_cache[prop]
+    g = _callgraph(repo)
+    ents, unresolved = _entries(repo, prop)
+    seen = set(ents)
+    todo = list(ents)
+    while todo:
+        k = todo.pop()
+        for c in g.get(k, ()):
+            if c not in seen:
+                seen.add(c)
+                todo.append(c)
+    # ownership: a function that some property anchors by name belongs to those properties only; an unanchored helper
+    # belongs to every property that reaches it
+    if "owners" not in _scope_cache:
+        own = {}
+        for q in anchors_all():
+            e, _u = _entries(repo, q)
+            for k in e:
+                own.setdefault(k, set()).add(q)
+        _scope_cache["owners"] = own
+    own = _scope_cache["owners"]
+    seen = {k for k in seen if k not in own or prop in own[k]}
+    _scope_cache[prop] = (seen, ents, unresolved)
+    return _scope_cache[prop]
+
+
+def anchors_all():
+    anchors("C01")
+    return sorted(_anchors)
+
+
+def anchor_files(prop):
+    return anchors(prop)
+
+
+def anchor_wheres(prop):
+    anchors(prop)
+    return _wheres.get(prop, [])
 
 
 def dead_parameters(repo, col, prop):
     """A parameter that a function accepts but never reads cannot influence the result: every
     property quantified over that input fails for it (e.g. `min_radius`, `delta_t`, `solver`)."""
     R = f"R-{prop}-params"
-    files = [f for f in anchors(prop) if f not in SKIP_FILES]
+    sc, ents, _ = scope(repo, prop)
     n = 0
     for fi in repo.all_functions():
-        if fi.file not in files or fi.name in INTERFACE_METHODS:
+        if (fi.file, fi.qual) not in sc or fi.file in SKIP_FILES or fi.name in INTERFACE_METHODS:
             continue
         a = fi.node.args
         ps = [x.arg for x in a.posonlyargs + a.args + a.kwonlyargs if x.arg not in ("self", "cls")]
@@ -85,8 +224,12 @@ def dead_parameters(repo, col, prop):
                     f"unused by design: {why}" if why else
                     f"`{fi.qual}` accepts `{p}` but never reads it: the result cannot depend on it, although callers pass it "
                     f"and the documentation promises an effect", node=fi.node)
-    col.rule(R, "every parameter of the anchored functions is read (listed exceptions with reasons)", 0)
+    col.rule(R, "every parameter of the functions the property is about (anchored functions and their transitive callees) "
+                "is read (listed exceptions with reasons)", 0)
     col.info["parameters_examined"] = n
+    col.info["scope"] = {"entry_functions": sorted(q for _f, q in ents), "functions_in_scope": len(sc)}
+    if not ents:
+        raise AnalysisError(f"no anchored function of {prop} resolves in the repository")
 
 
 def _own(n):
@@ -120,10 +263,10 @@ def early_exits(repo, col, prop):
     """A `for` loop over a registry (channels, synapse types, parameters, cells, keys, ...) whose body has effects
     must run to completion: a `break`/`return` placed before those effects silently skips every later element."""
     R = f"R-{prop}-loops"
-    files = [f for f in anchors(prop) if f not in SKIP_FILES]
+    sc, ents, _ = scope(repo, prop)
     n = 0
     for fi in repo.all_functions():
-        if fi.file not in files:
+        if (fi.file, fi.qual) not in sc or fi.file in SKIP_FILES:
             continue
         for lp in ast.walk(fi.node):
             if not isinstance(lp, ast.For):
